@@ -87,13 +87,15 @@ Proof.
 Qed.
 End Snd.
 
+Scheme tag_mut' := Induction for tag Sort Prop
+  with tlist_mut' := Induction for tlist Sort Prop
+  with tcomp_mut' := Induction for tcomp Sort Prop.
+Combined Scheme tag_mutind' from tag_mut', tlist_mut', tcomp_mut'.
+
+(* the precondition of the round-trip theorems implies what the parser guarantees *)
 Lemma wf_wfs : (forall t, wf t = true -> wfs t = true) /\ (forall l, wf_list l = true -> wfs_list l = true)
   /\ (forall c, wf_comp c = true -> wfs_comp c = true).
 Proof.
-  Scheme tag_mut' := Induction for tag Sort Prop
-    with tlist_mut' := Induction for tlist Sort Prop
-    with tcomp_mut' := Induction for tcomp Sort Prop.
-  Combined Scheme tag_mutind' from tag_mut', tlist_mut', tcomp_mut'.
   apply tag_mutind'; cbn [wf wfs wf_list wfs_list wf_comp wfs_comp]; auto.
   - intros l IH H. apply andb_prop in H. destruct H as [-> H]. rewrite (IH H). reflexivity.
   - intros t IHt l IHl H. apply andb_prop in H. destruct H as [A B]. rewrite (IHt A), (IHl B). reflexivity.
